@@ -35,6 +35,8 @@ const TYPEDEFS: &[&str] = &[
 
 pub struct ObOpts {
     pub data_version: bool,
+    /// the `[Term]` stanzas in the order of `f.terms` (not shuffled)
+    pub keep_order: bool,
 }
 
 /// hp.obo: header block, `[Term]` stanzas (shuffled) mixed with `[Typedef]` stanzas
@@ -133,7 +135,9 @@ pub fn render_obo(rng: &mut Rng, f: &Facts, flags: &Flags, case: &mut Case, oo: 
         blocks.push(rng.pick(TYPEDEFS).to_string());
         case.stat("typedef_stanzas", 1);
     }
-    rng.shuffle(&mut blocks);
+    if !oo.keep_order {
+        rng.shuffle(&mut blocks);
+    }
     let mut all = vec![header.join("\n")];
     all.extend(blocks);
     let mut s = all.join("\n\n");
@@ -210,7 +214,7 @@ pub fn hpoa_row(rng: &mut Rng, db: &str, id: &str, nm: &str, qualifier: &str, hp
         format!("PMID:{}", rng.range(1, 39_999_999)),
         rng.pick(&["PCS", "TAS", "IEA"]).to_string(),
         rng.pick(&["", "HP:0003577"]).to_string(),
-        rng.pick(&["", "1/2", "HP:0040283", "33%"]).to_string(),
+        rng.pick(&["", "1/2", "HP:0040283", "33%", "0/12", "0/0", "0%"]).to_string(),
         rng.pick(&["", "MALE", "NOT"]).to_string(),
         String::new(),
         rng.pick(&["P", "I", "C", "M"]).to_string(),
@@ -315,6 +319,16 @@ pub fn c09(rng: &mut Rng, _tier: &str, idx: usize) -> Case {
     let (mut f, shape) = gen_facts(rng, &DagOpts { max_terms, with_roots: true, max_recs: 6 });
     c.stat(&format!("shape_{shape:?}"), 1);
     let mut flags: Flags = if rng.chance(1, 2) { gen_flags(rng, &mut f) } else { vec![] };
+    let deep = idx % 30 == 13;
+    if deep {
+        // an is_a chain of depth 40..110 whose stanzas come deepest first (recursion depth of the
+        // ancestor caches and of the upward links)
+        let n = rng.range(40, 110) as usize;
+        f = gen_deep_chain_rooted(rng, n);
+        f.terms.reverse();
+        flags = vec![];
+        c.stat("deep_chain_files", 1);
+    }
     if rng.chance(1, 3) && !f.links[1].is_empty() {
         // an ORPHA disease with the NUMBER of an OMIM disease, on the same term
         let (d, t) = *rng.pick(&f.links[1]);
@@ -335,7 +349,7 @@ pub fn c09(rng: &mut Rng, _tier: &str, idx: usize) -> Case {
         c.stat("no_data_version_line", 1);
     }
     facts_stats(&f, &mut c);
-    let obo = render_obo(rng, &f, &flags, &mut c, &ObOpts { data_version });
+    let obo = render_obo(rng, &f, &flags, &mut c, &ObOpts { data_version, keep_order: deep });
     let genes = render_genes(rng, &f, transitive, &mut c);
     let (hpoa, ignored) = render_hpoa(rng, &f, &mut c);
     c.stat("bytes_obo", obo.len() as u64);
@@ -364,7 +378,7 @@ fn malformed(rng: &mut Rng) -> Case {
     let mut flags: Flags = vec![];
     normalise(&mut f, &mut flags);
     let mut scratch = Case::new("");
-    let mut obo = render_obo(rng, &f, &flags, &mut scratch, &ObOpts { data_version: true });
+    let mut obo = render_obo(rng, &f, &flags, &mut scratch, &ObOpts { data_version: true, keep_order: false });
     let mut genes = render_genes(rng, &f, transitive, &mut scratch);
     let (mut hpoa, _) = render_hpoa(rng, &f, &mut scratch);
     let present: BTreeSet<u32> = f.terms.iter().map(|t| t.0).collect();
@@ -497,7 +511,7 @@ fn malformed(rng: &mut Rng) -> Case {
                 f.links[k].retain(|l| l.1 != which);
             }
             normalise(&mut f, &mut flags);
-            obo = render_obo(rng, &f, &flags, &mut scratch, &ObOpts { data_version: true });
+            obo = render_obo(rng, &f, &flags, &mut scratch, &ObOpts { data_version: true, keep_order: false });
             genes = render_genes(rng, &f, transitive, &mut scratch);
             hpoa = render_hpoa(rng, &f, &mut scratch).0;
             "missing_root_term"
@@ -522,7 +536,7 @@ pub fn text_orders(rng: &mut Rng, k: u32) -> Case {
     f.version = (f.version.0 % 10000, f.version.1 % 100, f.version.2 % 100);
     facts_stats(&f, &mut c);
     for s in 0..k {
-        let obo = render_obo(rng, &f, &flags, &mut c, &ObOpts { data_version: true });
+        let obo = render_obo(rng, &f, &flags, &mut c, &ObOpts { data_version: true, keep_order: false });
         let genes = render_genes(rng, &f, transitive, &mut c);
         let (hpoa, _) = render_hpoa(rng, &f, &mut c);
         c.op(format!("jax {s} {} {} {} {}", if transitive { "transitive" } else { "std" }, name(&obo), name(&genes), name(&hpoa)));
